@@ -119,6 +119,25 @@ def ring_case(c):
         r["edge"] = [fl(el), fl(ea)]
     except Exception as e:
         r["edge"] = err(e)
+    if c.get("want_legacy"):
+        # legacy entry point used by kd_tree / bilinear: the four complete sides
+        try:
+            blon, blat = g.get_boundary_lonlats()
+            r["legacy_sides"] = sides_out([np.asarray(getattr(blon, "side%d" % i)) for i in (1, 2, 3, 4)],
+                                          [np.asarray(getattr(blat, "side%d" % i)) for i in (1, 2, 3, 4)])
+        except Exception as e:
+            r["legacy_sides"] = err(e)
+    if c.get("frequency_legacy"):
+        # legacy class: AreaDefBoundary(area, frequency) = get_bbox_lonlats() decimated
+        try:
+            from pyresample.boundary import AreaDefBoundary
+            d = AreaDefBoundary(g, frequency=c["frequency_legacy"])
+            r["adb_sides"] = sides_out(d.sides_lons, d.sides_lats)
+            cl, ca = d.contour()
+            r["adb_contour"] = [fl(cl), fl(ca)]
+            r["adb_poly_n"] = int(len(d.contour_poly.lon))
+        except Exception as e:
+            r["adb_sides"] = err(e)
     if c["kind"] == "area":
         try:
             x, y = g.get_edge_bbox_in_projection_coordinates(vertices_per_side=vps)
@@ -137,6 +156,33 @@ for c in req.get("rings", []):
     except Exception as e:
         res.append(err(e))
 out["rings"] = res
+
+# ---------------------------------------------------------------- AreaBoundary.decimate on sides whose values are their positions
+res = []
+for c in req.get("decimate", []):
+    try:
+        from pyresample.boundary import AreaBoundary
+        lens = c["lens"]
+        # side i: lons = positions 0..L-1, lats = 10*i + position/100 (distinct vertices; sides chained like a ring is not needed here)
+        sides = [(np.arange(L, dtype=np.float64), 10.0 * i + np.arange(L, dtype=np.float64) / 100.0) for i, L in enumerate(lens)]
+        b = AreaBoundary(*sides)
+        r = {}
+        if c.get("touch_poly_first"):
+            r["poly_n_before"] = int(len(b.contour_poly.lon))
+        b.decimate(c["ratio"])
+        r["positions"] = [[int(v) for v in s_] for s_ in b.sides_lons]
+        r["lat_positions"] = [[int(round((v - 10.0 * i) * 100.0)) for v in s_] for i, s_ in enumerate(b.sides_lats)]
+        cl, ca = b.contour()
+        r["contour_n"] = int(len(cl))
+        p = b.contour_poly
+        r["poly_n_after"] = int(len(p.lon))
+        r["poly_matches_contour"] = bool(len(p.lon) == len(cl) and np.allclose(p.lon, np.deg2rad(cl)) and np.allclose(p.lat, np.deg2rad(ca)))
+        v = b.vertices
+        r["vertices_match_contour"] = bool(v.shape == (len(cl), 2) and np.array_equal(v[:, 0], cl) and np.array_equal(v[:, 1], ca))
+        res.append(r)
+    except Exception as e:
+        res.append(err(e))
+out["decimate"] = res
 
 # ---------------------------------------------------------------- geostationary areas
 res = []
